@@ -134,8 +134,8 @@ def project_oracle(chk, p, r, m):
 
 def run(chk):
     from . import projgen, projcheck
-    prof = projgen.profile(n_ctx=(2, 4), p_varopts=0.45, p_env=0.5, p_root_noenv=0.35, p_tasks=0.05, p_custom_build=0.02, p_download=0.02, p_cycle=0.0)
-    projcheck.campaign(chk, prof, 200 if chk.tier == "quick" else 5000, ("status", "decision", "global_env", "module_env", "ninja"),
+    prof = projgen.profile(n_ctx=(2, 5), p_ctx_shuffle=0.5, p_varopts=0.4, p_env=0.5, p_root_noenv=0.35, p_tasks=0.05, p_custom_build=0.02, p_download=0.02, p_cycle=0.0)
+    projcheck.campaign(chk, prof, 800 if chk.tier == "quick" else 8000, ("status", "decision", "global_env", "module_env", "ninja"),
                        project_oracle, lambda c, p, r, m: False)
     n = 30000 if chk.tier == "quick" else 600000
     chk.rule = ("random envs (1-3 variables, single values and lists of 0-5 elements with empty elements at any position) x "
